@@ -113,6 +113,7 @@ def pool(tier):
         "y ~ (0 + center(x):f | h)",
         "y ~ f*g*scale(x)",
         "y ~ f:g:h",
+        "y ~ I(f)", "y ~ 0 + up(f)", "y ~ up(f):x", "y ~ x + (x | up(g))", "y ~ (0 + I(f) | g)",
     ]
     if tier == "thorough":
         for a in NUMT[:11]:
@@ -160,6 +161,10 @@ def build(formula, df):
     lv = [30, 10, 20]  # noqa: F841  (looked up by the formula)
     flv = ["b", "c", "a"]  # noqa: F841
     kn = [2.0, 3.0]  # noqa: F841
+
+    def up(s):  # a user function returning strings: a categorical call without C()
+        return s.str.upper()
+
     return design_matrices(formula, df)
 
 
